@@ -33,8 +33,8 @@ func (m *Map[K, V]) LoadOrStoreFn(key K, f func() V) (V, bool) {
 		return v, true
 	}
 	v := f()
-	m.m.Store(key, v)
-	return v, false
+	actual, loaded := m.m.LoadOrStore(key, v)
+	return actual.(V), loaded
 }
 
 func (m *Map[K, V]) Delete(key K) {
